@@ -127,6 +127,9 @@ func (h *hist) step(createOnly bool) {
 	// a block of 1..3 transactions by distinct signers
 	unit := []request{first}
 	used := map[string]bool{first.Caller: true}
+	if first.Signer != "" {
+		used[first.Signer] = true
+	}
 	for len(unit) < 3 && r.Intn(100) < 40 {
 		var nx request
 		switch x := r.Intn(100); {
@@ -144,6 +147,9 @@ func (h *hist) step(createOnly bool) {
 			nx = h.genExec("tx", used)
 		}
 		used[nx.Caller] = true
+		if nx.Signer != "" {
+			used[nx.Signer] = true
+		}
 		unit = append(unit, nx)
 	}
 	h.runBlock(unit)
@@ -187,15 +193,23 @@ func (h *hist) createMsg(req request) *schedulertypes.MsgCreateJob {
 		job.Owner = h.principalByName(req.SpoofOwner).Addr
 	}
 	return &schedulertypes.MsgCreateJob{
-		Metadata: valsettypes.MsgMetadata{Creator: p.Addr.String(), Signers: []string{p.Addr.String()}},
+		Metadata: h.meta(req, p),
 		Job:      job,
 	}
+}
+
+func (h *hist) meta(req request, p *principal) valsettypes.MsgMetadata {
+	signer := p
+	if req.Signer != "" {
+		signer = h.principalByName(req.Signer)
+	}
+	return valsettypes.MsgMetadata{Creator: p.Addr.String(), Signers: []string{signer.Addr.String()}}
 }
 
 func (h *hist) execMsg(req request) *schedulertypes.MsgExecuteJob {
 	p := h.principalByName(req.Caller)
 	m := &schedulertypes.MsgExecuteJob{
-		Metadata: valsettypes.MsgMetadata{Creator: p.Addr.String(), Signers: []string{p.Addr.String()}},
+		Metadata: h.meta(req, p),
 		JobID:    req.JobID,
 	}
 	if req.HasSupplied {
@@ -307,6 +321,9 @@ func (h *hist) runBlock(unit []request) {
 		} else {
 			msg = h.execMsg(req)
 		}
+		if req.Signer != "" {
+			p = h.principalByName(req.Signer)
+		}
 		if err := c.QueueTx(p.Acct, 0, msg); err != nil {
 			h.rec.Inconclusive("cannot sign tx: " + err.Error())
 			return
@@ -380,6 +397,9 @@ func (h *hist) evaluate(unit []request, res []result, before, after qsnap, store
 			}
 			rec.Count("create_ok", 1)
 			rec.Count("create_ok_"+req.Path, 1)
+			if req.Signer != "" {
+				rec.Count("create_ok_signed_by_grantee_of_creator", 1)
+			}
 			if req.SpoofOwner != "" && req.SpoofOwner != req.Caller {
 				rec.Count("create_ok_with_foreign_owner_field", 1)
 			}
@@ -402,6 +422,9 @@ func (h *hist) evaluate(unit []request, res []result, before, after qsnap, store
 			if !res[i].OK {
 				rec.Count("exec_failed", 1)
 				rec.Count("exec_failed_"+failClass(res[i].Err), 1)
+				if j != nil {
+					j.Fails++
+				}
 				if j != nil && req.HasSupplied && !j.Modifiable {
 					rec.Count("exec_failed_fixed_job_with_supplied_payload", 1)
 				}
@@ -423,6 +446,9 @@ func (h *hist) evaluate(unit []request, res []result, before, after qsnap, store
 			rec.Count("exec_ok", 1)
 			rec.Count("exec_ok_"+req.Path, 1)
 			rec.Count("exec_ok_chain_"+j.ChainRef, 1)
+			if req.Signer != "" {
+				rec.Count("exec_ok_signed_by_grantee_of_creator", 1)
+			}
 			switch {
 			case j.Modifiable && req.HasSupplied:
 				rec.Count("exec_ok_modifiable_supplied", 1)
@@ -624,7 +650,7 @@ func init() {
 		Cases: cases,
 		Run:   run,
 		MinCounters: []string{"create_ok", "create_dup_rejected", "create_ok_with_foreign_owner_field",
-			"exec_ok_tx", "exec_ok_handler", "exec_ok_wasm", "exec_ok_wasm-legacy",
+			"exec_ok_tx", "exec_ok_signed_by_grantee_of_creator", "create_ok_signed_by_grantee_of_creator", "exec_ok_handler", "exec_ok_wasm", "exec_ok_wasm-legacy",
 			"exec_ok_modifiable_supplied", "exec_ok_modifiable_stored", "exec_ok_fixed_stored", "exec_ok_mev_job",
 			"exec_failed_cannot_modify_payload", "exec_failed_relayer_selection_no_mev_relayer", "exec_failed_relayer_selection_no_eligible_relayer",
 			"exec_failed_unknown_job", "exec_failed_unknown_chain", "exec_ok_accompanied_by_valset_update", "calls_compared", "job_records_compared"},
